@@ -108,7 +108,7 @@ contract('parso.parser.BaseParser.error_recovery#dispatch', params={'self': 'ref
          requires=['token is not None', 'token.type is not None', 'token.type.value is not None',
                    'self._pgen_grammar is not None', 'self.stack is not None', 'len(self.stack) >= 1', STACK_WF,
                    TABLES_WF, PUSHES_WF, DISJOINT, ROOT_OPEN, NODES_NN, ARCS_WF],
-         ensures=['self.stack is not None', 'len(self.stack) >= 1', STACK_WF, NODES_NN],
+         ensures=['self.stack is not None', 'len(self.stack) >= 1', STACK_WF, NODES_NN, PUSHES_WF],
          raises=['ParserSyntaxError', 'NotImplementedError', 'InternalParseError'],
          modifies=['dfa', 'parent', 'children', 'stack', 'nodes', '_omit_dedent_list'], lists='*',
          raises_ensures={'ParserSyntaxError': LEAF_IS_TOKEN},
@@ -121,7 +121,7 @@ contract('parso.parser.BaseParser._add_token', params={'self': 'ref:BaseParser',
          requires=['token is not None', 'token.type is not None', 'token.type.value is not None',
                    'self._pgen_grammar is not None', 'self.stack is not None', 'len(self.stack) >= 1', STACK_WF,
                    TABLES_WF, PUSHES_WF, DISJOINT, ROOT_OPEN, NODES_NN, ARCS_WF],
-         ensures=['self.stack is not None', 'len(self.stack) >= 1', STACK_WF, NODES_NN],
+         ensures=['self.stack is not None', 'len(self.stack) >= 1', STACK_WF, NODES_NN, PUSHES_WF],
          raises=['ParserSyntaxError', 'NotImplementedError', 'InternalParseError'],
          raises_ensures={'ParserSyntaxError': LEAF_IS_TOKEN},
          loops={0: dict(invariant=['stack is self.stack', 'stack is not None', STACK_WF, TABLES_WF, PUSHES_WF, DISJOINT,
@@ -169,7 +169,7 @@ contract('parso.python.parser.Parser.error_recovery#strict', params={'self': 're
                    # and the root entry belongs to the start rule
                    'len(%s.nodes) >= 1 or token.type is not DEDENT' % TOP,
                    'self.stack[0].dfa.from_rule == self._start_nonterminal'],
-         ensures=['self.stack is not None', 'len(self.stack) >= 1', STACK_WF, NODES_NN,
+         ensures=['self.stack is not None', 'len(self.stack) >= 1', STACK_WF, NODES_NN, PUSHES_WF,
                   # strict mode returns normally only through the missing-final-newline exemption shared with
                   # recovery mode
                   'self._start_nonterminal == "file_input"', 'old(%s.dfa.from_rule) == "simple_stmt"' % TOP],
@@ -212,13 +212,41 @@ contract('parso.python.parser.Parser.error_recovery#recover', params={'self': 'r
                    'self._omit_dedent_list is not None',
                    # the list of ints is none of the lists of objects (separate Python types)
                    'self._omit_dedent_list is not self.stack',
+                   "forall(lambda p: implies(p is not None, p.dfa_pushes is not self._omit_dedent_list), kinds=dict(p='ref:DFAPlan'))",
                    'forall(lambda k: implies(0 <= k and k < len(self.stack), self.stack[k].nodes is not self._omit_dedent_list), '
                    'trigger=lambda k: self.stack[k])',
                    'len(%s.nodes) >= 1 or token.type is not DEDENT' % TOP,
                    'self.stack[0].dfa.from_rule == self._start_nonterminal'],
-         ensures=['self.stack is not None', 'len(self.stack) >= 1', STACK_WF, NODES_NN],
+         ensures=['self.stack is not None', 'len(self.stack) >= 1', STACK_WF, NODES_NN, PUSHES_WF],
          raises=['ParserSyntaxError', 'NotImplementedError', 'InternalParseError'],
          raises_ensures={'ParserSyntaxError': LEAF_IS_TOKEN},
          modifies=['dfa', 'parent', 'children', 'stack', 'nodes', '_omit_dedent_list'], lists='*', frame_assumed=NODE_CTOR,
          call_keys=LAST_LEAF_NN, globals_={'DEDENT': 'ref:PythonTokenTypes', 'INDENT': 'ref:PythonTokenTypes'},
+         props=['C02'])
+
+
+# ---- C02: the driver.  BaseParser.parse feeds every token to _add_token and then pops the finished entries.
+# Assumed about one iteration (token stream / grammar facts, not proved here): while a token is still to be fed the root
+# entry is not complete (ENDMARKER is the last token and is what completes the start rule), and the push lists of the
+# generated tables are not the parser's working lists.
+class_fields('Grammar', nonterminal_to_dfas='map:str:list:ref:DFAState')
+contract('parso.parser.BaseParser.parse', params={'self': 'ref:BaseParser', 'tokens': 'list:ref:PythonToken'}, returns='ref:BaseNode',
+         requires=['self._pgen_grammar is not None', 'tokens is not None', 'len(tokens) >= 1',
+                   'forall(lambda k: implies(0 <= k and k < len(tokens), tokens[k] is not None and tokens[k].type is not None '
+                   'and tokens[k].type.value is not None), trigger=lambda k: tokens[k])',
+                   'self._start_nonterminal in self._pgen_grammar.nonterminal_to_dfas',
+                   'self._pgen_grammar.nonterminal_to_dfas[self._start_nonterminal] is not None',
+                   'len(self._pgen_grammar.nonterminal_to_dfas[self._start_nonterminal]) >= 1',
+                   'self._pgen_grammar.nonterminal_to_dfas[self._start_nonterminal][0] is not None',
+                   TABLES_WF, PUSHES_WF, ARCS_WF],
+         ensures=['result is not None'],
+         raises=['ParserSyntaxError', 'NotImplementedError', 'InternalParseError'],
+         loops={0: dict(invariant=['implies(_i > 0, token is not None)',
+                                   'self.stack is not None', 'len(self.stack) >= 1', 'self.stack is not tokens', STACK_WF, NODES_NN,
+                                   TABLES_WF, PUSHES_WF, ARCS_WF],
+                        assume_in_body=[ROOT_OPEN, DISJOINT], snapshot=True),
+                1: dict(invariant=['self.stack is not None', 'len(self.stack) >= 1', STACK_WF, NODES_NN],
+                        decreases='len(self.stack)')},
+         modifies=['stack', 'dfa', 'parent', 'children', 'nodes', '_omit_dedent_list'], lists='*', frame_assumed=NODE_CTOR,
+         call_keys={'parso.parser.BaseParser.convert_node': 'parso.parser.BaseParser.convert_node'},
          props=['C02'])
